@@ -47,6 +47,18 @@ class HarnessError(Exception):
     pass
 
 
+class _StopShard(Exception):
+    pass
+
+
+def _deadline(tier: str) -> float:
+    dflt = "600" if tier == "quick" else "5400"
+    return _T0 + float(os.environ.get("VERIF_WALL_BUDGET", dflt))
+
+
+_T0 = time.time()
+
+
 def cjson(obj) -> str:
     return json.dumps(obj, sort_keys=True, separators=(",", ":"), default=repr)
 
@@ -70,6 +82,15 @@ class Rec:
         self.evals = 0  # extra oracle evaluations inside one case (optional)
 
     def fail(self, bucket: str, detail: Any = None) -> None:
+        if len(self.fails) >= 50:
+            return
+        if detail is not None:
+            try:
+                txt = cjson(detail)
+            except Exception:  # noqa: BLE001
+                txt = repr(detail)
+            if len(txt) > 1500:
+                detail = txt[:1500] + "...<truncated>"
         self.fails.append((bucket, detail))
 
     def cls(self, key: str, n: int = 1) -> None:
@@ -125,6 +146,8 @@ class Agg:
         self.buckets: dict[str, dict] = {}
         self.harness_errors: list[str] = []
         self.enum_total = 0
+        self.fatal = False  # catastrophic failure seen: stop this shard
+        self.inconclusive = 0  # shards stopped by the wall budget
 
     def add_case(self, part: Part, case, rec: Rec, origin: dict) -> None:
         self.evaluations += 1
@@ -178,6 +201,7 @@ class Agg:
                 self.buckets[key]["count"] = cnt
         self.harness_errors.extend(other.harness_errors)
         self.enum_total += other.enum_total
+        self.inconclusive += other.inconclusive
 
 
 def _alarm(signum, frame):
@@ -200,6 +224,7 @@ def _classify_exception(e: BaseException) -> tuple[bool, str]:
 
 def run_one(part: Part, case, active: frozenset, agg: Optional[Agg], origin: dict) -> Rec:
     rec = Rec(active)
+    _note_progress(part, case)
     old = signal.signal(signal.SIGALRM, _alarm)
     signal.alarm(CASE_WATCHDOG_S)
     try:
@@ -212,6 +237,8 @@ def run_one(part: Part, case, active: frozenset, agg: Optional[Agg], origin: dic
         is_lib, bucket = _classify_exception(e)
         if is_lib:
             rec.fail(bucket, "".join(traceback.format_exception_only(type(e), e)).strip()[:300])
+            if agg is not None and isinstance(e, (Hang, MemoryError, RecursionError)):
+                agg.fatal = True  # do not drive a library in this state any further
         else:
             msg = "".join(traceback.format_exception(type(e), e, e.__traceback__))
             if agg is not None:
@@ -266,10 +293,18 @@ def _hyp_shard(args) -> Agg:
     @hypothesis.seed(hseed)
     @given(strat)
     def t(case):
+        if agg.fatal:
+            raise _StopShard
+        if time.time() > deadline:
+            agg.inconclusive = 1
+            raise _StopShard
         run_one(part, case, active, agg, origin)
 
+    deadline = _deadline(tier)
     try:
         t()
+    except _StopShard:
+        pass
     except Exception as e:  # noqa: BLE001  (health check, generator bug)
         agg.harness_errors.append(
             f"part={partname} hypothesis: "
@@ -284,9 +319,15 @@ def _enum_shard(args) -> Agg:
     part = _part_of(mod, partname)
     agg = Agg()
     origin = {"kind": "enum"}
+    deadline = _deadline(tier)
     for i, case in enumerate(part.enum(tier)):
         if i % nshards != shard:
             continue
+        if agg.fatal:
+            break
+        if time.time() > deadline:
+            agg.inconclusive = 1
+            break
         run_one(part, case, active, agg, origin)
         agg.enum_total += 1
     return agg
@@ -327,6 +368,128 @@ def shrink_bucket(mod, part: Part, tier: str, key: str, info: dict, active: froz
 
 
 # ----------------------------------------------------------------------------
+_PROGRESS = {"fd": None}
+
+
+def _note_progress(part: Part, case) -> None:
+    fd = _PROGRESS["fd"]
+    if fd is not None:
+        data = cjson({"part": part.name, "case": case}).encode()
+        os.lseek(fd, 0, os.SEEK_SET)
+        os.write(fd, data)
+        os.ftruncate(fd, len(data))
+
+
+def _limit_memory(gb_env: str, default: str) -> None:
+    try:
+        import resource
+
+        lim = int(float(os.environ.get(gb_env, default)) * (1 << 30))
+        resource.setrlimit(resource.RLIMIT_AS, (lim, lim))
+    except Exception:  # noqa: BLE001
+        pass
+
+
+def _shrink_job(job):
+    modname, partname, tier, key, info, active = job
+    mod = _load_module(modname)
+    return shrink_bucket(mod, _part_of(mod, partname), tier, key, info, active)
+
+
+def _job_main(kind, job, conn, progress_path):
+    _limit_memory("VERIF_WORKER_MEM_GB", "2")
+    _PROGRESS["fd"] = os.open(progress_path, os.O_RDWR | os.O_CREAT, 0o600)
+    try:
+        if kind == "enum":
+            agg = _enum_shard(job)
+        elif kind == "hyp":
+            agg = _hyp_shard(job)
+        else:
+            agg = _shrink_job(job)
+    except BaseException as e:  # noqa: BLE001
+        agg = Agg()
+        agg.harness_errors.append("".join(traceback.format_exception(type(e), e, e.__traceback__))[-2000:])
+    conn.send(agg)
+    conn.close()
+
+
+def run_jobs(jobs, nprocs: int):
+    """Run every job in its own forked process, at most nprocs at a time.  A
+    worker that dies (OOM kill, stack overflow in C code, ...) is reported as a
+    failure of the case it was working on instead of hanging the run."""
+    import tempfile
+    from multiprocessing.connection import wait
+
+    if not jobs:
+        return
+    if os.environ.get("VERIF_NO_FORK"):
+        for kind, job in jobs:
+            yield {"enum": _enum_shard, "hyp": _hyp_shard, "shrink": _shrink_job}[kind](job)
+        return
+    ctx = multiprocessing.get_context("fork")
+    tmpdir = tempfile.mkdtemp(prefix="verif_progress_")
+    pending = list(enumerate(jobs))
+    running = {}  # sentinel -> (proc, conn, idx, kind, job)
+    try:
+        while pending or running:
+            while pending and len(running) < nprocs:
+                idx, (kind, job) = pending.pop(0)
+                rd, wr = ctx.Pipe(duplex=False)
+                ppath = os.path.join(tmpdir, f"p{idx}")
+                proc = ctx.Process(target=_job_main, args=(kind, job, wr, ppath))
+                proc.start()
+                wr.close()
+                running[proc.sentinel] = (proc, rd, idx, kind, job, ppath)
+            ready = wait([v[1] for v in running.values()] + list(running.keys()), timeout=5)
+            for sent in list(running.keys()):
+                proc, rd, idx, kind, job, ppath = running[sent]
+                got = None
+                if rd in ready or rd.poll(0):
+                    try:
+                        got = rd.recv()
+                    except (EOFError, OSError):
+                        got = None
+                    proc.join()
+                elif sent in ready or not proc.is_alive():
+                    proc.join()
+                    if rd.poll(0):
+                        try:
+                            got = rd.recv()
+                        except (EOFError, OSError):
+                            got = None
+                else:
+                    continue
+                del running[sent]
+                rd.close()
+                if got is None:
+                    agg = Agg()
+                    try:
+                        with open(ppath) as f:
+                            last = json.load(f)
+                    except Exception:  # noqa: BLE001
+                        last = None
+                    if last is None:
+                        agg.harness_errors.append(f"worker for {kind} job {job[:3]} died (exit {proc.exitcode}) before its first case")
+                    else:
+                        partname = last["part"]
+                        agg.evaluations = 1
+                        agg.buckets[f"{partname}/worker-died"] = {
+                            "count": 1, "size": len(cjson(last["case"])), "case": last["case"],
+                            "detail": f"worker process died (exit code {proc.exitcode}: killed / out of memory / crash) while running this case",
+                            "part": partname, "bucket": "worker-died", "origin": {"kind": "died"},
+                        }
+                    yield agg
+                else:
+                    yield got
+    finally:
+        for proc, *_ in running.values():
+            proc.kill()
+        import shutil
+
+        shutil.rmtree(tmpdir, ignore_errors=True)
+
+
+# ----------------------------------------------------------------------------
 def load_known(prop_id: str) -> list[dict]:
     path = os.path.join(VERIF, "known_findings.json")
     if not os.path.exists(path):
@@ -346,6 +509,7 @@ def main(modname: str, argv: list[str]) -> int:
     ap.add_argument("--no-shrink", action="store_true")
     a = ap.parse_args(argv)
     tier = a.tier if a.tier in ("quick", "thorough") else "quick"
+    _limit_memory("VERIF_MAIN_MEM_GB", "6")
     seed = int(os.environ.get("VERIF_SEED", "1") or 1)
     t0 = time.time()
     mod = _load_module(modname)
@@ -438,18 +602,9 @@ def main(modname: str, argv: list[str]) -> int:
                 jobs_hyp.append((modname, p.name, tier, hseed, per, factive))
             per_part[p.name]["hypothesis_examples"] = per * nshards
 
-    if nshards > 1 and (jobs_enum or jobs_hyp):
-        ctx = multiprocessing.get_context("fork")
-        with ctx.Pool(nshards) as pool:
-            r1 = pool.map_async(_enum_shard, jobs_enum, chunksize=1)
-            r2 = pool.map_async(_hyp_shard, jobs_hyp, chunksize=1)
-            for agg in r1.get() + r2.get():
-                total.merge(agg)
-    else:
-        for j in jobs_enum:
-            total.merge(_enum_shard(j))
-        for j in jobs_hyp:
-            total.merge(_hyp_shard(j))
+    jobs = [("enum", j) for j in jobs_enum] + [("hyp", j) for j in jobs_hyp]
+    for agg in run_jobs(jobs, nshards):
+        total.merge(agg)
 
     # --- 5. triage buckets ----------------------------------------------------------
     exit_code = 0
@@ -458,15 +613,16 @@ def main(modname: str, argv: list[str]) -> int:
         print(total.harness_errors[0][:3000])
         exit_code = 2
 
-    for key, info in sorted(total.buckets.items()):
-        if any(key in ks for ks in known_buckets.values()):
-            # a bucket of an active known finding that escaped its exclusion is
-            # still the same root cause only if the check says so; checks never
-            # rec.fail() for excluded triggers, so this is a different input.
-            pass
-        part = _part_of(mod, info["part"])
-        if not a.no_shrink:
-            info = shrink_bucket(mod, part, tier, key, info, factive)
+    # Every remaining bucket is a violation that known_findings.json does not
+    # list (checks never rec.fail() for the excluded trigger of an active known
+    # finding).  Shrink each in a child process (memory limit, watchdog).
+    items = sorted(total.buckets.items())
+    if items and not a.no_shrink:
+        sjobs = [("shrink", (modname, info["part"], tier, key, info, factive)) for key, info in items[:12]]
+        shrunk = [r for r in run_jobs(sjobs, nshards) if isinstance(r, dict)]
+        by_key = {(r["part"], r["bucket"]): r for r in shrunk}
+        items = [(key, by_key.get((info["part"], info["bucket"]), info)) for key, info in items]
+    for key, info in items:
         violations.append((key, info))
 
     out_dir = os.path.join(os.environ.get("VERIF_OUT_DIR") or os.path.join(VERIF, "out"), "violations", pid)
@@ -506,7 +662,8 @@ def main(modname: str, argv: list[str]) -> int:
         "classes": dict(sorted(total.classes.items())),
         "parts": per_part,
         "replay_files": n_replays,
-        "exhaustive": bool(exhaustive and total.enum_total > 0),
+        "exhaustive": bool(exhaustive and total.enum_total > 0 and not total.inconclusive),
+        "inconclusive_shards_stopped_by_wall_budget": total.inconclusive,
         "enumerated_cases": total.enum_total,
         "excluded_by_known_finding": dict(total.excluded),
         "known_findings_active": sorted(active),
